@@ -216,7 +216,7 @@ impl Prop for C04 {
 
     fn rule(&self) -> String {
         "cases = (a generated tree up to depth 4 over a name pool with ASCII, Unicode, spaces and a 66-character name (paths > 100 bytes), extensions incl. the empty one, same stem with several extensions, a directory and a file sharing an id, \
-         empty directories, contents empty / small / 20-100 KiB; archive options: member order permutation, directory members all / none / random subset, './' prefix, stored or deflated per member, an outdated earlier member of one path (the last member is the stored one), in-memory or file-backed reader; 1..4 reader threads; in a third of the cases also a copy of the zip archive with one flipped data byte in one stored member: reading that member must fail or give the tree's bytes, never other bytes). \
+         empty directories, contents empty / small / 20-100 KiB; archive options: member order permutation, directory members all / none / random subset, './' prefix, file members spelled `zz/../<path>`, stored or deflated per member, an outdated earlier member of one path (the last member is the stored one), in-memory or file-backed reader; 1..4 reader threads; in a third of the cases also a copy of the zip archive with one flipped data byte in one stored member: reading that member must fail or give the tree's bytes, never other bytes). \
          The tree is materialised on disk (FileSystem), as zip, as tar and - by running the embed! macro's own expansion code on the directory and evaluating the produced table - as Embedded. \
          Oracle = the generated tree itself: read gives the stored bytes, read_dir lists every direct child exactly once with kind/id/ext, exists agrees, listed entries are readable, absent entries (fresh ids, wrong extension, wrong kind) do not exist and fail to read (NotFound unless the other kind occupies the path). \
          non-trivial = a tree with >= 2 levels and a directory without an archive member of its own, or a non-identity member order; distinct = different canonical JSON"
@@ -249,7 +249,7 @@ impl Prop for C04 {
             .map(|k| {
                 to_case(&Case {
                     tree: TreeSpec { entries: Vec::new() },
-                    opts: ArchOpts { order: 0, dir_members: DirMembers::All, dot_prefix: false, deflate_mask: 0, file_backed: false, stale_duplicate: None, damage: None },
+                    opts: ArchOpts { order: 0, dir_members: DirMembers::All, dot_prefix: false, deflate_mask: 0, file_backed: false, stale_duplicate: None, damage: None, dotdot_mask: 0 },
                     threads: 2,
                     fixed: Some(k),
                 })
